@@ -194,6 +194,10 @@ def corpus():
     cs += [mk(["chain", [wmed, ["moment"]]], [es, ns], [d1], [w1], q, "corpus-weights-into-unweighted-reduction"),
            mk(["chain", [["trend", 1], ["chain", [wmed, ["trend", 0]]]]], [es, ns], [d1], [w1], q, "corpus-weights-into-unweighted-reduction"),
            mk(["vector", [["chain", [wmed, ["moment"]]], ["trend", 1]]], [es, ns], [d1, d2], [w1, w1[::-1]], q, "corpus-weights-into-unweighted-reduction")]
+    # a chain that ENDS with a reduction (decimation as the last processing step: nothing to predict for it, `filter` is all it has)
+    cs += [mk(["chain", [["trend", 1], one]], [ge_, gn_], [gd_], None, q, "corpus-chain-ends-with-reduction"),
+           mk(["chain", [["moment"], ["chain", [["trend", 0], wavg]]]], [es, ns], [d1], [w1], q, "corpus-chain-ends-with-reduction"),
+           mk(["chain", [["trend", 1], blk]], [es, ns], [d1], [w1], q, "corpus-chain-ends-with-reduction")]
     cs += [mk_probe(es, ns, [100.0 + 3.0 * k for k in range(len(es))], d1, 1.0), mk_probe(ge_, gn_, [7.5 - k for k in range(len(ge_))], gd_, 2.0)]
     import random
     r32 = random.Random(32)
@@ -579,7 +583,7 @@ def oracle(case, io):
                 p = np.array(_tolist(st.predict(tuple(start[0]))))
                 tot = p if tot is None else tot + p
             resid = np.array(_tolist(args[1]))
-            if not _close(tot + resid, np.where(np.isnan(tot + resid), np.nan, np.array(_tolist(start[1]))), 1e-9, max(1.0, nmax(tot), nmax(resid))):
+            if tot is not None and not _close(tot + resid, np.where(np.isnan(tot + resid), np.nan, np.array(_tolist(start[1]))), 1e-9, max(1.0, nmax(tot), nmax(resid))):
                 return "sum of step predictions at the data plus the last residual does not give back the data"
         if spec[0] == "vector":
             for i, s in enumerate(spec[1]):
